@@ -282,27 +282,67 @@ def slc3(ctx: Ctx) -> None:
 
 
 def slc4(ctx: Ctx) -> None:
-    """sibling agreement of the three built-in unwrappers"""
+    """SLC-4 sibling agreement of the three built-in unwrappers, as a table: a running generator / coroutine unwraps to
+    StackSlice(outer=<its frame>), a suspended one to (<its frame>, <what it is delegating to>); each reads only the
+    attributes of its own family (gi_* / cr_* / ag_*); an async generator counts as running only while ag_await is None"""
+    import copy
+    from ..stepper import Stepper, enumerate_table
+    from ..emit import Unsupported
     mod = ctx.P.mod("_glue")
     sib = {"unwrap_geniter": ("gi", "gi_yieldfrom"), "unwrap_coro": ("cr", "cr_await"), "unwrap_asyncgen": ("ag", "ag_await")}
+
+    class GA(ast.NodeTransformer):
+        """getattr(x, 'name') -> x.name"""
+        def visit_Call(self, c: ast.Call):
+            self.generic_visit(c)
+            if isinstance(c.func, ast.Name) and c.func.id == "getattr" and len(c.args) == 2 and isinstance(c.args[1], ast.Constant) and isinstance(c.args[1].value, str):
+                return ast.copy_location(ast.Attribute(value=c.args[0], attr=c.args[1].value, ctx=ast.Load()), c)
+            return c
+
     for name, (pre, nxt) in sib.items():
-        fn = mod.fn(f"glue_builtins.{name}")
-        ctx.R.saw(mod, f"glue_builtins.{name}")
+        q = f"glue_builtins.{name}"
+        if not mod.has(q):
+            raise AnalysisError(f"anchor vanished: _glue.{q} is not defined any more")
+        fn = mod.fn(q)
+        ctx.R.saw(mod, q)
         p = fn.args.args[0].arg
-        ifs = [s for s in fn.body if isinstance(s, ast.If)]
-        rets = [s for s in fn.body if isinstance(s, ast.Return)]
-        ok = len(ifs) == 1 and len(rets) == 1
-        if ok:
-            t = norm(ifs[0].test)
-            ok = t.startswith(f"{p}.{pre}_running") and [norm(x) for x in ifs[0].body] == [f"return StackSlice(outer={p}.{pre}_frame)"] \
-                and norm(rets[0].value) == f"({p}.{pre}_frame, {p}.{nxt})"
-            if name == "unwrap_asyncgen":
-                ok = ok and t == f"{p}.ag_running and {p}.ag_await is None"
-        if ok:
-            ctx.R.ok("SLC-4", f"{name}: running -> StackSlice(outer={pre}_frame); suspended -> ({pre}_frame, {nxt})")
+        body = [GA().visit(copy.deepcopy(x)) for x in fn.body if not (isinstance(x, ast.Expr) and isinstance(x.value, ast.Constant))]
+        R_ = f"{p}.{pre}_running"
+        A_ = f"{p}.ag_await is None"
+        known = [R_] + ([A_] if pre == "ag" else [])
+
+        def run(assign, body=body):
+            st = Stepper(assign, simplify=lambda e: GA().visit(e))
+            k, v = st.run(body, {})
+            if k == "return" and v is not None:
+                return norm(GA().visit(v))
+            return k
+
+        try:
+            atoms, rows = enumerate_table(run, known)
+        except Unsupported as ex:
+            ctx.R.undecided("SLC-4", f"{name} is outside the step interpreter: {ex}")
+            continue
+        bad = some = None
+        groups: Dict[tuple, list] = {}
+        for assign, out in rows:
+            running = assign[R_] and (assign[A_] if pre == "ag" else True)
+            want = f"StackSlice(outer={p}.{pre}_frame)" if running else f"({p}.{pre}_frame, {p}.{nxt})"
+            groups.setdefault(tuple(assign[k_] for k_ in known), []).append((assign, out, want, out == want))
+        for lst in groups.values():
+            wrong = [r for r in lst if not r[3]]
+            if wrong and len(wrong) == len(lst):
+                bad = bad or wrong[0]
+            elif wrong:
+                some = some or wrong[0]
+        if bad is None and some is None:
+            ctx.R.ok("SLC-4", f"{name}: running -> StackSlice(outer={pre}_frame); suspended -> ({pre}_frame, {nxt})", f"{len(rows)} combinations of {atoms}")
+        elif bad is not None:
+            assign, out, want, _ = bad
+            ctx.R.fail("SLC-4", mod, fn, f"{name} must unwrap a running object to StackSlice(outer=its frame) and a suspended one to (its frame, what it awaits), like its siblings; "
+                       f"with {dict((k_, v_) for k_, v_ in assign.items() if k_ in known)} it returns `{out}` where `{want}` is required", construct=f"{name} shape")
         else:
-            ctx.R.fail("SLC-4", mod, fn, f"{name} must unwrap a running object to StackSlice(outer=its frame) and a suspended one to (its frame, what it awaits), like its siblings",
-                       construct=f"{name} shape")
+            ctx.R.undecided("SLC-4", f"{name}: differs from its siblings only for some values of {[a_ for a_ in atoms if a_ not in known]}")
 
 
 # ===================================================================== C09
